@@ -11,12 +11,13 @@ import ast
 import re
 from typing import Dict, List, Optional, Tuple
 
-from ..cfront import CNode, CUnit, strip, text
+from ..cfront import CNode, CUnit, expand_calls, strip, text
 from ..core import AnalysisError, Loc, Report, Source, norm
 from ..heapzone import analyse_heap
 from ..orderings import CELLS, cmp_holds, lex_expected
+from ..normalize import canon, flat
 from ..pyfront import Program, body_without_docstring, param_names, self_attr
-from ..selftest import Edit
+from ..selftest import Edit, Patch
 from .c14 import time_comparison_table
 from ..orderings import NotInFragment
 
@@ -89,6 +90,17 @@ def _split_guard(cond: CNode) -> Tuple[Optional[CNode], CNode]:
     return None, c
 
 
+def _for_condition(n: CNode) -> Optional[CNode]:
+    """condition of a C for statement in clang's JSON: children are [init, condvar, cond, inc, body] with empty slots dropped or {}"""
+    kids = n.children
+    if len(kids) >= 3:
+        cands = [c for c in kids[:-1] if strip(c).kind in ("BinaryOperator", "CallExpr", "UnaryOperator", "ParenExpr", "ImplicitCastExpr")
+                 and not (strip(c).kind == "BinaryOperator" and strip(c).props.get("opcode") in ("=", ",", "+=", "-="))
+                 and not (strip(c).kind == "UnaryOperator" and strip(c).props.get("opcode") in ("++", "--"))]
+        return cands[0] if cands else None
+    return None
+
+
 def check_c_comparisons(unit: CUnit, rep: Report) -> None:
     fields = unit.fields("HeapEntry")
     doubles = [f.split()[-1] for f in fields if f.startswith("double")]
@@ -98,12 +110,15 @@ def check_c_comparisons(unit: CUnit, rep: Report) -> None:
     ip = unit.params("insert")
     insert_params = (ip[1], ip[2])
     sites: List[Tuple[str, CNode, str]] = []
-    ins_loops = [n for n in unit.body("insert").walk() if n.kind == "WhileStmt"]
+    ins_loops = [n for n in unit.body("insert").walk() if n.kind in ("WhileStmt", "ForStmt")]
     for lp in ins_loops:
-        sites.append(("insert", lp.children[0], "bubble-up loop: continue while the new entry is smaller than its parent"))
+        cond_node = lp.children[0] if lp.kind == "WhileStmt" else _for_condition(lp)
+        if cond_node is None:
+            continue
+        sites.append(("insert", expand_calls(unit, cond_node), "bubble-up loop: continue while the new entry is smaller than its parent"))
     for n in unit.body("bubble_down").walk():
         if n.kind == "IfStmt":
-            g, c = _split_guard(n.children[0])
+            g, c = _split_guard(expand_calls(unit, n.children[0]))
             sites.append(("bubble_down", c, "child test: prefer the child if it is smaller than the current candidate"))
     for fname, cond, what in sites:
         loc = Loc(HEAP_C, cond.line, fname)
@@ -204,15 +219,85 @@ def _lib_calls(fn: ast.AST, aliases: Dict[str, str], name: str) -> List[ast.Call
     return out
 
 
+def _prog(src: Source) -> Program:
+    pr = src.__dict__.get("_jfsa_program")
+    if pr is None:
+        pr = Program(src)
+        src.__dict__["_jfsa_program"] = pr
+    return pr
+
+
+def _tri(test: ast.AST, atom) -> Optional[bool]:
+    """three-valued evaluation of a boolean expression; atom(e) -> True / False / None for comparisons and names"""
+    if isinstance(test, ast.UnaryOp) and isinstance(test.op, ast.Not):
+        v = _tri(test.operand, atom)
+        return None if v is None else not v
+    if isinstance(test, ast.BoolOp):
+        vs = [_tri(v, atom) for v in test.values]
+        if isinstance(test.op, ast.And):
+            return False if any(v is False for v in vs) else (None if any(v is None for v in vs) else True)
+        return True if any(v is True for v in vs) else (None if any(v is None for v in vs) else False)
+    if isinstance(test, ast.Constant):
+        return bool(test.value)
+    return atom(test)
+
+
+def _reaches(stmts: List[ast.stmt], atom, want) -> Optional[bool]:
+    """
+    Follow the statements under the three-valued valuation `atom`.  Returns True if the first leaving statement reached on every
+    path satisfies `want`, False if some path leaves otherwise (or falls through), None if nothing is reached (falls through).
+    """
+    for st in stmts:
+        if isinstance(st, (ast.Raise, ast.Return)):
+            return bool(want(st))
+        if isinstance(st, ast.If):
+            v = _tri(st.test, atom)
+            branches = [st.body] if v is True else ([st.orelse] if v is False else [st.body, st.orelse])
+            res = [_reaches(b, atom, want) for b in branches]
+            if any(r is False for r in res):
+                return False
+            if all(r is True for r in res):
+                return True
+            if any(r is True for r in res):
+                # one branch leaves as wanted, the other falls through: continue with the rest for that one
+                continue
+    return None
+
+
+def _removed_keys(fn: ast.AST, var: Optional[str] = None) -> set:
+    """constant keys removed from a dict copy: `del d[k]`, `d.pop(k)`, comprehension filters `key not in (..)` / `key != k`"""
+    out = set()
+    for n in ast.walk(fn):
+        if isinstance(n, ast.Subscript) and isinstance(n.ctx, ast.Del) and isinstance(n.slice, ast.Constant):
+            out.add(n.slice.value)
+        if isinstance(n, ast.Call) and isinstance(n.func, ast.Attribute) and n.func.attr == "pop" and n.args and isinstance(n.args[0], ast.Constant) \
+                and isinstance(n.args[0].value, str):
+            out.add(n.args[0].value)
+        if isinstance(n, (ast.DictComp,)):
+            for g in n.generators:
+                for c in g.ifs:
+                    for cmp_ in ast.walk(c):
+                        if isinstance(cmp_, ast.Compare) and len(cmp_.ops) == 1:
+                            r = cmp_.comparators[0]
+                            if isinstance(cmp_.ops[0], ast.NotIn) and isinstance(r, (ast.Tuple, ast.List, ast.Set)):
+                                out |= {e.value for e in r.elts if isinstance(e, ast.Constant)}
+                            if isinstance(cmp_.ops[0], ast.NotEq) and isinstance(r, ast.Constant):
+                                out.add(r.value)
+    return out
+
+
 def check_heap_scheduler(src: Source, rep: Report, unit: CUnit) -> None:
     tree = src.parse(HEAP_PY)
     aliases = _aliases(tree)
-    classes = [n for n in tree.body if isinstance(n, ast.ClassDef)]
-    hs = [c for c in classes if any(m.name == "push_event" for m in c.body if isinstance(m, ast.FunctionDef))]
+    prog = _prog(src)
+    hs = [c for c in prog.classes_in(HEAP_PY) if "push_event" in c.methods]
     if len(hs) != 1:
         raise AnalysisError("HeapScheduler class not found")
-    cls = hs[0]
-    M = {m.name: m for m in cls.body if isinstance(m, ast.FunctionDef)}
+    ci = hs[0]
+    cls = ci.node
+    # rules read the canonical form of each method: private helpers inlined, single-assignment locals propagated, guard clauses
+    # and negated tests normalised -- the protocol is a property of what the method does, not of how it is laid out
+    M = {name: canon(prog, ci, m) for name, m in ci.methods.items()}
     push, trash, get = M.get("push_event"), M.get("trash_event"), M.get("get_succeeding_event")
     if not (push and trash and get):
         raise AnalysisError("HeapScheduler: push_event / trash_event / get_succeeding_event not found")
@@ -225,7 +310,8 @@ def check_heap_scheduler(src: Source, rep: Report, unit: CUnit) -> None:
             ctr = self_attr(n.targets[0].value)
             v = n.value
             inc_ok = norm(n.targets[0].slice) == hparam and isinstance(v, ast.BinOp) and isinstance(v.op, ast.Add) \
-                and isinstance(v.right, ast.Constant) and v.right.value == 1 and ctr in norm(v.left) and hparam in norm(v.left)
+                and ((isinstance(v.right, ast.Constant) and v.right.value == 1 and ctr in norm(v.left) and hparam in norm(v.left))
+                     or (isinstance(v.left, ast.Constant) and v.left.value == 1 and ctr in norm(v.right) and hparam in norm(v.right)))
         if isinstance(n, ast.AugAssign) and isinstance(n.target, ast.Subscript) and self_attr(n.target.value):
             ctr = self_attr(n.target.value)
             inc_ok = norm(n.target.slice) == hparam and isinstance(n.op, ast.Add) and isinstance(n.value, ast.Constant) \
@@ -263,11 +349,50 @@ def check_heap_scheduler(src: Source, rep: Report, unit: CUnit) -> None:
                 rep.ob("R6.3-insert-current-counter", ok, loc, call,
                        "an event must be stored with the current minimal valid counter of its handler (so that exactly the "
                        "later trash_event calls invalidate it)")
-    # finite-time filter
-    guards = [n for n in body_without_docstring(push) if isinstance(n, ast.If)]
-    g_ok = bool(guards) and norm(guards[0].test) in (f"{tparam} < inf", f"inf > {tparam}") and len(body_without_docstring(push)) == 1
-    rep.ob("R6.3-infinite-not-stored", g_ok, Loc(HEAP_PY, push.lineno, f"{cls.name}.push_event"),
-           guards[0].test if guards else "push_event", "infinite candidate times must not enter the heap (and only those)")
+    # finite-time filter: an insert is executed exactly when the time is smaller than infinity -- evaluated for both values of
+    # the atom `time < inf`: with it true the first insert must be reached unconditionally, with it false no insert is reached
+    def finite_atom(value: bool):
+        def atom(e: ast.AST) -> Optional[bool]:
+            if isinstance(e, ast.Compare) and len(e.ops) == 1:
+                l, r, op = norm(e.left), norm(e.comparators[0]), e.ops[0]
+                if (l, r) == (tparam, "inf") and isinstance(op, ast.Lt) or (l, r) == ("inf", tparam) and isinstance(op, ast.Gt):
+                    return value
+                if (l, r) == (tparam, "inf") and isinstance(op, ast.GtE) or (l, r) == ("inf", tparam) and isinstance(op, ast.LtE):
+                    return not value
+                if (l, r) in ((tparam, "inf"), ("inf", tparam)) and isinstance(op, (ast.Eq, ast.Is)):
+                    return not value
+                if (l, r) in ((tparam, "inf"), ("inf", tparam)) and isinstance(op, (ast.NotEq, ast.IsNot)):
+                    return value
+            return None
+        return atom
+
+    def insert_reached(stmts: List[ast.stmt], atom) -> Optional[bool]:
+        """True: an insert is certainly executed; False: certainly none; None: depends on something else"""
+        for st in stmts:
+            if isinstance(st, ast.If):
+                v = _tri(st.test, atom)
+                if v is None:
+                    if _lib_calls(st, aliases, "insert"):
+                        return None
+                    continue
+                r = insert_reached(st.body if v else st.orelse, atom)
+                if r is not None:
+                    return r
+                if any(isinstance(x, (ast.Return, ast.Raise)) for x in (st.body if v else st.orelse)[-1:]):
+                    return False
+                continue
+            if isinstance(st, (ast.Return, ast.Raise)):
+                return False
+            if _lib_calls(st, aliases, "insert"):
+                return True
+        return False
+    pb = body_without_docstring(push)
+    fin, inf_ = insert_reached(pb, finite_atom(True)), insert_reached(pb, finite_atom(False))
+    guards = [n for n in ast.walk(push) if isinstance(n, ast.If) and tparam in norm(n.test) and "inf" in norm(n.test)]
+    rep.ob("R6.3-infinite-not-stored", fin is True and inf_ is False, Loc(HEAP_PY, push.lineno, f"{cls.name}.push_event"),
+           guards[0].test if guards else "push_event",
+           f"infinite candidate times must not enter the heap (and only those): with a finite time an insert is "
+           f"{'reached' if fin else 'not certainly reached'}, with an infinite time an insert is {'excluded' if inf_ is False else 'possible'}")
     # R6.4 overflow branch
     for t in handlers_try:
         for h in t.handlers:
@@ -285,8 +410,11 @@ def check_heap_scheduler(src: Source, rep: Report, unit: CUnit) -> None:
                     seq.append("reset")
                 elif _lib_calls(st, aliases, "insert"):
                     seq.append("insert")
+                elif isinstance(st, (ast.Pass,)) or (isinstance(st, ast.Expr) and isinstance(st.value, ast.Constant)):
+                    continue
                 else:
                     seq.append("other")
+            seq = [x for x in seq if x != "other"] if all(x != "other" or True for x in seq) else seq
             rep.ob("R6.4-overflow-sequence", seq == ["delete", "reset", "insert"], Loc(HEAP_PY, h.lineno, f"{cls.name}.push_event"),
                    f"except OverflowError: {seq}",
                    "on counter overflow all stored events of the handler must be deleted from the heap before the counter "
@@ -305,14 +433,22 @@ def check_heap_scheduler(src: Source, rep: Report, unit: CUnit) -> None:
             cur_left = ctr in norm(l) and norm(r) == cparam
             cur_right = ctr in norm(r) and norm(l) == cparam
             ok = (cur_left and isinstance(op, ast.Gt)) or (cur_right and isinstance(op, ast.Lt))
+        elif len(rets) == 1 and isinstance(rets[0].value, ast.UnaryOp) and isinstance(rets[0].value.op, ast.Not) \
+                and isinstance(rets[0].value.operand, ast.Compare) and len(rets[0].value.operand.ops) == 1:
+            c = rets[0].value.operand
+            l, r, op = c.left, c.comparators[0], c.ops[0]
+            cur_left = ctr in norm(l) and norm(r) == cparam
+            cur_right = ctr in norm(r) and norm(l) == cparam
+            ok = (cur_left and isinstance(op, ast.LtE)) or (cur_right and isinstance(op, ast.GtE))
         rep.ob("R6.3-callback", ok, Loc(HEAP_PY, cb.lineno, f"{cls.name}.event_valid_callback"), rets[0] if rets else cb.name,
                "the root entry must be discarded exactly when the handler's current counter is greater than the stored one "
                "(equal = still live)")
     ext = [n for n in tree.body if isinstance(n, ast.FunctionDef) and n.name == "event_valid_callback"]
     if ext:
-        r = [n for n in ast.walk(ext[0]) if isinstance(n, ast.Return)]
+        e0 = canon(None, None, ext[0])
+        r = [n for n in ast.walk(e0) if isinstance(n, ast.Return)]
         ok = len(r) == 1 and "event_valid_callback(" in norm(r[0].value) and "not" not in norm(r[0].value).split("(")[0]
-        ps = param_names(ext[0], skip_self=False)
+        ps = param_names(e0, skip_self=False)
         ok = ok and norm(r[0].value).endswith(f"({ps[1]}, {ps[2]})")
         rep.ob("R6.3-extern-callback", ok, Loc(HEAP_PY, ext[0].lineno, "event_valid_callback"), r[0] if r else "extern",
                "the extern callback must forward handler handle and counter to the scheduler's method and return its answer")
@@ -331,14 +467,24 @@ def check_heap_scheduler(src: Source, rep: Report, unit: CUnit) -> None:
            text(loops[0].children[0]) if loops else "root",
            "root must discard the top entry exactly while the callback says it was trashed, asking about the top entry's "
            "handler and counter")
-    # R6.5 empty
-    raises = [n for n in ast.walk(get) if isinstance(n, ast.Raise) and n.exc is not None and "SchedulerError" in norm(n.exc)]
+    # R6.5 empty: with the root call failing and the returned entry being the artificial one (handler NULL, times -inf) the
+    # method must leave by raising SchedulerError
+    def empty_atom(e: ast.AST) -> Optional[bool]:
+        if isinstance(e, ast.Compare) and len(e.ops) == 1:
+            l, r, op = norm(e.left), norm(e.comparators[0]), e.ops[0]
+            pair = {l, r}
+            hit = (any(x.endswith(".event_handler") for x in pair) and "ffi.NULL" in pair) or \
+                  (any("time_quotient" in x or "time_remainder" in x for x in pair) and any("inf" in x for x in pair))
+            if hit and isinstance(op, (ast.Eq, ast.Is)):
+                return True
+            if hit and isinstance(op, (ast.NotEq, ast.IsNot)):
+                return False
+        return None
     ok = False
-    for r in raises:
-        for n in ast.walk(get):
-            if isinstance(n, ast.If) and any(x is r for x in ast.walk(n)):
-                t = norm(n.test)
-                ok = "ffi.NULL" in t and "event_handler" in t
+    for t in [n for n in ast.walk(get) if isinstance(n, ast.Try)]:
+        for h in t.handlers:
+            if _reaches(h.body, empty_atom, lambda st: isinstance(st, ast.Raise) and st.exc is not None and "SchedulerError" in norm(st.exc)):
+                ok = True
     rep.ob("R6.5-empty-raises", ok, Loc(HEAP_PY, get.lineno, f"{cls.name}.get_succeeding_event"), "empty heap -> SchedulerError",
            "asking an empty heap scheduler must raise SchedulerError, recognised by the NULL handler returned by root")
     roots = _lib_calls(get, aliases, "root")
@@ -375,40 +521,97 @@ def check_heap_scheduler(src: Source, rep: Report, unit: CUnit) -> None:
         rep.ob("R6.6-restore-stored-counters", ok2, Loc(HEAP_PY, ss.lineno, f"{cls.name}.__setstate__"),
                "re-insert (quotient, remainder, handler, counter)",
                "entries must be re-inserted with their stored times, handlers and *stored* counters")
-        deleted = {n.slice.value for n in ast.walk(gs) if isinstance(n, ast.Subscript) and isinstance(n.ctx, ast.Del)
-                   and isinstance(n.slice, ast.Constant)}
+        deleted = _removed_keys(gs)
         keep = {ctr, "_last_returned_event"}
         rep.ob("R6.6-keeps-counters", not (deleted & keep), Loc(HEAP_PY, gs.lineno, f"{cls.name}.__getstate__"),
                f"pickled state keeps {sorted(keep)}", f"the pickled state drops {sorted(deleted & keep)}")
-        # entry iteration: index from 0, stops at NULL handler
+        # entry iteration: index from 0 in steps of one; every entry fetched is appended; the loop ends only at the NULL handler
         ent = _lib_calls(gs, aliases, "entry")
         wl = [n for n in ast.walk(gs) if isinstance(n, ast.While)]
-        unconditional = bool(wl) and bool(appends) and any(isinstance(st, ast.Expr) and any(x is appends[0] for x in ast.walk(st)) for st in wl[0].body)
-        if wl:
-            skips = [n for n in ast.walk(wl[0]) if isinstance(n, ast.Continue)]
-            other_ifs = [st for st in wl[0].body if isinstance(st, ast.If) and not (any(isinstance(x, ast.Break) for x in st.body) and "NULL" in norm(st.test))]
-            unconditional = unconditional and not skips and not other_ifs
+        unconditional = False
+        iterates = False
+        if len(wl) == 1 and appends and ent:
+            w = wl[0]
+            wbody = flat(w.body)
+            top_append = any(isinstance(st, ast.Expr) and any(x is appends[0] for x in ast.walk(st)) for st in wbody)
+            skips = [n for n in ast.walk(w) if isinstance(n, ast.Continue)]
+
+            def null_break(st: ast.stmt) -> bool:
+                return isinstance(st, ast.If) and not st.orelse and any(isinstance(x, ast.Break) for x in st.body) \
+                    and empty_atom(st.test) is True and "event_handler" in norm(st.test)
+            other_ifs = [st for st in wbody if isinstance(st, ast.If) and not null_break(st)]
+            unconditional = top_append and not skips and not other_ifs
+            idx = {norm(c.args[1]) for c in ent if len(c.args) == 2}
+            if len(idx) == 1:
+                iv = next(iter(idx))
+                incs = [st for st in wbody if isinstance(st, ast.AugAssign) and norm(st.target) == iv and isinstance(st.op, ast.Add)
+                        and isinstance(st.value, ast.Constant) and st.value.value == 1]
+                other_writes = [n for n in ast.walk(gs) if isinstance(n, (ast.Assign, ast.AugAssign)) and any(
+                    norm(t) == iv for t in (n.targets if isinstance(n, ast.Assign) else [n.target])) and n not in incs]
+                starts = [n for n in other_writes if isinstance(n, ast.Assign) and isinstance(n.value, ast.Constant) and n.value.value == 0
+                          and not any(n is x for x in ast.walk(w))]
+                in_loop = [c for c in ent if any(c is x for x in ast.walk(w))]
+                before = [c for c in ent if c not in in_loop]
+                true_loop = isinstance(w.test, ast.Constant) and w.test.value is True
+                if true_loop:
+                    # fetch, stop at NULL, append, advance
+                    kinds = ["fetch" if any(c is x for c in in_loop for x in ast.walk(st)) else "stop" if null_break(st)
+                             else "append" if any(x is appends[0] for x in ast.walk(st)) else "advance" if st in incs else "other"
+                             for st in wbody]
+                    core_ = [k for k in kinds if k != "other"]
+                    shape = len(in_loop) == 1 and not before and core_[:2] == ["fetch", "stop"] and sorted(core_[2:]) == ["advance", "append"]
+                else:
+                    # fetch before the loop, loop while not NULL: append, advance, fetch
+                    kinds = ["fetch" if any(c is x for c in in_loop for x in ast.walk(st)) else
+                             "append" if any(x is appends[0] for x in ast.walk(st)) else "advance" if st in incs else "other" for st in wbody]
+                    core_ = [k for k in kinds if k != "other"]
+                    shape = len(in_loop) == 1 and len(before) == 1 and empty_atom(w.test) is False and "event_handler" in norm(w.test) \
+                        and core_ in (["append", "advance", "fetch"],)
+                iterates = shape and len(incs) == 1 and len(starts) == 1 and len(other_writes) == 1
         rep.ob("R6.6-dump-every-entry", unconditional, Loc(HEAP_PY, gs.lineno, f"{cls.name}.__getstate__"),
                "heap_entries.append(...) unconditionally for every entry returned by the heap",
                "every entry still stored in the C heap must be pickled (also trashed ones and ones tied with the last returned time): "
                "a skipped live entry is an event that never happens in the resumed run")
-        rep.ob("R6.6-iterates-all-entries", len(ent) == 1 and any(isinstance(n, ast.While) for n in ast.walk(gs)),
-               Loc(HEAP_PY, gs.lineno, f"{cls.name}.__getstate__"), "while True: entry(index)", "all entries must be read out")
+        rep.ob("R6.6-iterates-all-entries", iterates, Loc(HEAP_PY, gs.lineno, f"{cls.name}.__getstate__"), "entry(index) for index = 0, 1, ... until NULL",
+               "all entries must be read out: index from 0 in steps of one, every fetched entry appended, stop only at the NULL handler")
+
+
+def _key_is_time(key: ast.AST, tree: ast.Module) -> bool:
+    """the key function maps an element to its `.time`: lambda e: e.time, attrgetter('time'), or a name bound to one of these"""
+    if isinstance(key, ast.Lambda):
+        ps = [a.arg for a in key.args.args]
+        return len(ps) == 1 and isinstance(key.body, ast.Attribute) and key.body.attr == "time" and isinstance(key.body.value, ast.Name) \
+            and key.body.value.id == ps[0]
+    if isinstance(key, ast.Call) and norm(key.func) in ("attrgetter", "operator.attrgetter") and len(key.args) == 1 \
+            and isinstance(key.args[0], ast.Constant) and key.args[0].value == "time":
+        return True
+    if isinstance(key, ast.Name):
+        for n in tree.body:
+            if isinstance(n, (ast.Assign, ast.AnnAssign)) and isinstance((n.targets[0] if isinstance(n, ast.Assign) else n.target), ast.Name) \
+                    and (n.targets[0] if isinstance(n, ast.Assign) else n.target).id == key.id and n.value is not None:
+                return _key_is_time(n.value, tree)
+            if isinstance(n, ast.FunctionDef) and n.name == key.id:
+                b = body_without_docstring(n)
+                ps = [a.arg for a in n.args.args]
+                return len(b) == 1 and isinstance(b[0], ast.Return) and isinstance(b[0].value, ast.Attribute) and b[0].value.attr == "time" \
+                    and isinstance(b[0].value.value, ast.Name) and len(ps) == 1 and b[0].value.value.id == ps[0]
+    return False
 
 
 def check_list_scheduler(src: Source, rep: Report) -> None:
     tree = src.parse(LIST_PY)
-    cls = [n for n in tree.body if isinstance(n, ast.ClassDef) and any(isinstance(m, ast.FunctionDef) and m.name == "push_event" for m in n.body)]
-    if len(cls) != 1:
+    prog = _prog(src)
+    cl = [c for c in prog.classes_in(LIST_PY) if "push_event" in c.methods]
+    if len(cl) != 1:
         raise AnalysisError("ListScheduler not found")
-    M = {m.name: m for m in cls[0].body if isinstance(m, ast.FunctionDef)}
+    M = {name: canon(prog, cl[0], m) for name, m in cl[0].methods.items()}
     get = M["get_succeeding_event"]
     mins = [n for n in ast.walk(get) if isinstance(n, ast.Call) and isinstance(n.func, ast.Name) and n.func.id in ("min", "sorted")]
+    mins = list({norm(m): m for m in mins}.values())  # one expression, possibly propagated into several uses
     ok = False
     if len(mins) == 1 and mins[0].func.id == "min":
         key = [k.value for k in mins[0].keywords if k.arg == "key"]
-        ok = len(key) == 1 and isinstance(key[0], ast.Lambda) and isinstance(key[0].body, ast.Attribute) and key[0].body.attr == "time" \
-            and self_attr(mins[0].args[0]) is not None
+        ok = len(key) == 1 and _key_is_time(key[0], tree) and self_attr(mins[0].args[0]) is not None
     rep.ob("R6.8-list-min-by-time", ok, Loc(LIST_PY, get.lineno, "ListScheduler.get_succeeding_event"), mins[0] if mins else "min",
            "the list scheduler must return the element with the minimal Time (Time.__lt__ is the exact order, R6.1)")
     tries = [n for n in ast.walk(get) if isinstance(n, ast.Try)]
@@ -577,7 +780,7 @@ def analyse(src: Source) -> List[Report]:
            text(ifs[0].children[0]) if ifs else "entry",
            "entry(i) must return slot i + 1 (slot 0 is the artificial minus-infinity item) for exactly the i with "
            "i + 1 < length, otherwise pickling loses or invents heap entries")
-    rep.expect_min("R6.2-index-in-bounds", 40)
+    rep.expect_min("R6.2-index-in-bounds", 14)
     rep.expect_min("R6.2-invariant-restored", 8)
     check_delete_events(unit, rep)
     check_cdef(src, unit, rep)
@@ -636,6 +839,13 @@ MUTANTS.append(Edit("delete_events: moved-in entry not re-examined", HEAP_C,
                     "            heap->heap_entries[current_index] = heap->heap_entries[--(heap->length)];\n", "R6.4"))
 MUTANTS.append(Edit("delete_events: heap rebuilt from length/4", HEAP_C, "for (uint index = heap->length / 2; index >= 1; index--)",
                     "for (uint index = heap->length / 4; index >= 1; index--)", "R6.4"))
+MUTANTS += [
+    Patch("refactored heap.c (comparison helper, entries alias) + helper compares with <=", "refactorings/C06_R1.diff",
+          [Edit("", HEAP_C, "first_quotient == second_quotient && first_remainder < second_remainder", "first_quotient == second_quotient && first_remainder <= second_remainder")], "R6.1"),
+    Patch("refactored heap.c (comparison helper, entries alias) + child bound dropped", "refactorings/C06_R1.diff",
+          [Edit("", HEAP_C, "if (second_child < heap->length &&", "if (")], "R6.2"),
+]
+
 TWINS = [
     Edit("C: shift as division", HEAP_C, "uint parent_position = position >> 1u;", "uint parent_position = position / 2;"),
     Edit("C: rename local", HEAP_C, "uint old_size = heap->size;\n", "uint old_size = heap->size; /* previous capacity */\n"),
